@@ -193,10 +193,18 @@ def make_pin(c, tmpdir):
     path = os.path.join(tmpdir, "pin.txt")
     if os.path.exists(path):
         os.unlink(path)
-    if not c["change"]:
+    # a PIN change is due either because there is no PIN file yet or because the operator
+    # asked for one (-X) with the file in place; the PIN object is built the way the
+    # manager scripts build it (their own load_pin on the parsed command line)
+    import zlib
+    from .c10 import load_pin_as_the_manager_does
+    if c["platform"] == "tcp":
+        return None       # manager_tcp.py: load_pin=lambda options: None
+    forced = c["change"] and zlib.crc32(json.dumps(c, sort_keys=True, default=str).encode()) % 2
+    if not c["change"] or forced:
         with open(path, "wb") as f:
             f.write(b"abcd1234")
-    return FileBasedPin(path, b"abcd1234", False)
+    return load_pin_as_the_manager_does(c["platform"], path, bool(forced), b"abcd1234")
 
 
 def unlock_apdus(apdus):
@@ -417,6 +425,10 @@ def hangup_during_stopping_bringup(s, port, t, report):
     dev.mode = MODE_BOOTLOADER
     dev.unlocked = False
     dev.retries = 1
+    # (the retries check is what stops the manager; the checks before it - UI version,
+    # echo - end in a device-error reply and a later retry instead, so they must pass)
+    dev.cfg["echo_ok"] = True
+    dev.cfg["ui_version"] = (5, 4, 1)
     s.bus.exchange_hook = lambda bus, apdu: time.sleep(0.03)
     try:
         ask(req, read=False)
